@@ -157,6 +157,10 @@ class ProgGen:
                 elif self.allow_error:
                     ops.append("z")
             abandoned = (not complete) and fi == nfun - 1
+            ra_fails = bool(tobind) and any(o.startswith("c@%d." % k) for k in tobind for o in ops) and r.random() < (0.05 if self.final else 0.2)
+            if ra_fails:
+                tobind = []              # a jump target stays unbound: the register allocator refuses the function (kInvalidState)
+                self.ra_failures = getattr(self, "ra_failures", 0) + 1
             if not abandoned:
                 ops += ["b@%d" % k for k in tobind]
                 ops.append("R%d" % r.randrange(8))
@@ -175,7 +179,7 @@ class ProgGen:
                 out.append("e%d" % r.choice([4, 16, 64]))
             out.append("Z")
             nl, ops, ok = funcs[-1]
-            if nfun == 2 and ok and not any(o[0] in "Kz" for o in ops) and not any(o[0] == "z" for o in funcs[0][1]):
+            if nfun == 2 and ok and not getattr(self, "ra_failures", 0) and not any(o[0] in "Kz" for o in ops) and not any(o[0] == "z" for o in funcs[0][1]):
                 self.alone = ",".join(render(nl, ops, 0) + ["Z"])
             elif r.random() < 0.25:
                 out.append("f")
@@ -276,6 +280,18 @@ WITNESS_ASAN_ONLY = [
 ]
 
 
+# finalize() again after a finalize() that failed in the SERIALISATION step (invalid instruction reaches the Assembler; the register
+# allocator itself succeeded): the label / instruction nodes still carry RABlock / RAInst pointers into the pass arena that
+# run_on_function has reset (only rewritten instructions get their pass data cleared), so the second register allocation follows
+# dangling pointers (SEGV in Arena::_release_dynamic via RABlock::append_successor). fixes/C16-ra-pass-data.patch clears the pass
+# data of the function's nodes. Both the recycled and the fresh objects run the same program, so an unfixed tree crashes in both.
+# (finalize() again after a failed REGISTER ALLOCATION is kept out: the node list is half transformed then, see design/C16.md.)
+WITNESS_REFINALIZE = [
+    "C w-refin-x x c 0 RI P:F1,v1,z,R0,E,Z,Z",
+    "C w-refin-a a c 0 G:l,F1,v2,R0,E,Z RI P:l,F2,v1,c0.1,z,b0,R0,E,Z,Z",
+]
+
+
 # ------------------------------------------------------------------ running
 def run_cases(exe, cases, shards=16, timeout=1500, env=None):
     chunks = [cases[i::shards] for i in range(shards)]
@@ -353,33 +369,186 @@ def asan_key(text):
     return "C16/asan/%s/%s" % (kind, top), kind, frames[:6]
 
 
-INITIAL_STATE = "1/1/1/1/0/0/0/0/0/0/0"
+INITIAL_STATE = "1/1/1/1/0/0/0/0/0/0/0/0"
 
 
-def model_script(case, trace):
-    """lifecycle script for the model: the steps of the case with every program replaced by its measured effect"""
+NAME_IDS = {}
+
+
+def predict_ops(prog, kind, arch, mode32, has_base=False):
+    """program of the harness -> operations of the lifecycle model's SProg (counter effects computed by the proven model), or
+    None when the counter effects depend on things the model does not have (a Builder's .addrtab appears during serialisation
+    and only if the call node is reached)."""
+    out = []
+    for op in prog.split(","):
+        if not op:
+            continue
+        c = op[0]
+        if c == "l":
+            out.append("l1")
+        elif c == "L":
+            out.append("l" + op[1:])
+        elif c == "n":
+            out.append("n%d" % NAME_IDS.setdefault(op[1:], len(NAME_IDS) + 1))
+        elif c == "s":
+            out.append("s")
+        elif c == "k":
+            if arch == "x" and not mode32 and (kind == "b" or has_base):
+                return None          # Builder: decided during serialisation; known base address: the call may be encoded directly
+            if kind == "a" and arch == "x" and not mode32:
+                out.append("a")
+        elif kind == "c":
+            if c == "F":
+                out.append("F%d" % (int(op[1:]) % 4))
+            elif c == "v" or c == "T":
+                out.append("v1")
+            elif c == "h":
+                out.append("v" + op[1:])
+            elif c == "K" and arch == "x":
+                out.append("c")
+            elif c == "E":
+                out.append("E")
+            elif c == "y":
+                out.append("y")
+    return out
+
+
+def model_script(case, trace, counters=None):
+    """lifecycle script for the model. Programs are given by their OPERATIONS whenever their counter effects are predictable
+    (the model computes labels / sections / registers / annotations; relocation count and pending one-shot state are inputs);
+    otherwise by their measured effect."""
     t = case.split(" ")
+    arch, kind = t[2], t[3]
     steps = [x for x in t[5:] if not x.startswith("Q:")]
     states = trace.split(" ")
     if len(states) != len(steps):
         return None
     out = []
     prev = INITIAL_STATE.split("/")
+    cur32 = pend32 = False
+    cur_base = pend_base = False
+    unpredictable = False          # until the next reset-like step
     for st, obs in zip(steps, states):
         cur = obs.split("/")
         if st[:2] in ("G:", "P:"):
             d = [int(cur[i]) - int(prev[i]) for i in (3, 4, 5, 8, 9)]
             if min(d) < 0:
                 return None          # a program cannot remove sections / labels / relocations / registers / annotations
-            out.append("G%d.%d.%d.%d.%d.%s" % (tuple(d) + (cur[10],)))
+            prog = st[2:]
+            ops = None if unpredictable else predict_ops(prog, kind, arch, cur32, cur_base)
+            if ops is None:
+                unpredictable = True
+                out.append("G%d.%d.%d.%d.%d.%s" % (tuple(d) + (cur[10],)))
+                if counters is not None:
+                    counters["measured_programs"] = counters.get("measured_programs", 0) + 1
+            else:
+                ra = int(cur[11]) - int(prev[11])        # labels created inside finalize() (register allocator): an input
+                if ra:
+                    ops = ops + ["l%d" % ra]
+                out.append("P%d.%s:%s" % (d[2], cur[10], "+".join(ops)))
+                if counters is not None:
+                    counters["predicted_programs"] = counters.get("predicted_programs", 0) + 1
+            if kind == "c":
+                # a function left open (history only) or a failed add_func make what follows depend on Compiler error paths
+                ops_l = prog.split(",")
+                nf, ne = sum(1 for o in ops_l if o[:1] == "F"), sum(1 for o in ops_l if o == "E")
+                if nf != ne:
+                    unpredictable = True
         elif st == "NHa":
             out.append("NH")
         elif st[0] in "HBE" and st not in ("EL1", "EL0"):
             out.append("H")
+            if st == "E32":
+                pend32 = arch == "x" and kind != "c"
+            elif st == "E64":
+                pend32 = False
+            elif st[0] == "B":
+                pend_base = len(st) > 1
         else:
             out.append(st)
+        if st in ("RS", "RH", "NH", "NHa"):
+            cur32 = pend32
+            cur_base = pend_base
+            unpredictable = False
+        elif st == "RI":
+            unpredictable = False
         prev = cur
     return t[1] + " " + " ".join(out)
+
+
+def recycled_builder_correspondence(ck, rng):
+    """Command-level correspondence for RECYCLED builders: C08's command streams (tools/c08_gen.py) are executed by a Builder and a
+    Compiler that were used before and re-initialised (harness/c16_recycled_builder.cpp includes C08's harness for the command
+    interpreter and the canonical dump); every per-command answer must equal the one C08's extracted Coq model gives from its
+    initial state. Returns the counters for the evidence. C08's files are used read-only; if they no longer build the stage is
+    skipped and says so."""
+    info = {"programs": 0, "modes": ["reinit", "soft reset + init + attach", "hard reset + init + attach"], "steps_compared": 0,
+            "disagreements": 0, "fresh_vs_c08_model_disagreements": 0}
+    try:
+        import c08_gen
+        impl = ck.build_harness("c08", ["c08_harness.cpp"])
+        rb = ck.build_harness("c16rb", ["c16_recycled_builder.cpp"])
+        model = ck.ocaml_model("Extract_Builder.v", ["zconv.ml", "c08_driver.ml"], name="c08")
+        rc, cat_text, err = vlib.sh([impl, "catalog"], timeout=120)
+        cat = c08_gen.Catalog(cat_text)
+    except Exception as e:           # noqa: BLE001 - another property's machinery, not this property's verdict
+        info["skipped"] = "C08's harness / model / generator could not be built: %s" % str(e)[-300:]
+        ck.notes.append("recycled-builder correspondence skipped: " + info["skipped"])
+        return info
+    n = 240 if ck.tier == "quick" else 3000
+    texts = []
+    kinds = ["pure", "edit", "malformed"]
+    for i in range(n):
+        t, m = c08_gen.make_program(rng, cat, i, [1, 0, 2][i % 3], kinds[(i // 3) % 3])
+        if not m.get("validate"):                 # the validator's verdict is an input of C08's model: needs C08's own plumbing
+            texts.append((i, t))
+    info["programs"] = len(texts)
+    chunks = [texts[i::8] for i in range(8)]
+
+    def steps_of(out, tag):
+        d = {}
+        for l in out.split("\n"):
+            t = l.split()
+            if len(t) >= 5 and t[1] == tag:
+                d.setdefault(t[0], []).append(" ".join(t[2:]))
+        return d
+    for ch in chunks:
+        if not ch:
+            continue
+        inp = "".join(t for _i, t in ch)
+        rc, mo, me = vlib.sh([model], inp=inp, timeout=600)
+        want = steps_of(mo, "STEP")
+        # the same streams on FRESH builders (C08's own harness): when fresh objects already disagree with C08's model -- e.g. a fix
+        # commit in /repo that C08's model does not describe yet -- that is C08's tie, not a residue; this property's verdict is
+        # "recycled = fresh", the model is the second witness
+        rc, fo, fe = vlib.sh([impl, "run"], inp=inp, timeout=600)
+        fresh = {"STEP": steps_of(fo, "STEP"), "STEPC": steps_of(fo, "STEPC")}
+        for i, t in ch:
+            if fresh["STEP"].get("p%d" % i, []) != want.get("p%d" % i, []):
+                info["fresh_vs_c08_model_disagreements"] += 1
+        for how in (0, 1, 2):
+            rc, o, e = vlib.sh([rb, str(how)], inp=inp, timeout=600)
+            if rc != 0:
+                ck.violation("C16/recycled-builder/crash", "recycled builder harness died (mode %s): %s" % (info["modes"][how], e[-400:]),
+                             {"mode": how, "programs": inp[:3000]})
+                continue
+            for tag in ("STEP", "STEPC"):
+                got = steps_of(o, tag)
+                for i, t in ch:
+                    g, w_ = got.get("p%d" % i, []), want.get("p%d" % i, [])
+                    fr = fresh[tag].get("p%d" % i, [])
+                    info["steps_compared"] += len(w_)
+                    if g != w_ and g == fr:
+                        continue          # fresh objects give the same answers: counted above, C08's business
+                    if g != w_:
+                        info["disagreements"] += 1
+                        k = next((j for j, (a, b) in enumerate(zip(g, w_)) if a != b), min(len(g), len(w_)))
+                        ck.violation("C16/recycled-builder/%s/%s" % ("builder" if tag == "STEP" else "compiler", ["reinit", "soft", "hard"][how]),
+                                     "a %s that was used before and re-initialised (%s) answers command %d of a C08 command stream differently "
+                                     "from C08's proven Builder model started in its initial state AND from a fresh emitter: impl %s, model %s, "
+                                     "fresh %s" % ("Builder" if tag == "STEP" else "Compiler", info["modes"][how], k, g[k:k + 1], w_[k:k + 1], fr[k:k + 1]),
+                                     {"program": t, "mode": info["modes"][how], "step": k})
+    return info
 
 
 def own_regen(ck, text):
@@ -487,7 +656,7 @@ def run(ck):
     if not ja_ok:
         ck.notes.append("random lifecycles do not create jump annotations: BaseCompiler::_jump_annotations is not reset in this tree")
     ncases = 2000 if ck.tier == "quick" else 24000
-    cases = list(WITNESS)
+    cases = list(WITNESS) + list(WITNESS_REFINALIZE)
     corpus = os.path.join(vlib.VERIF, "corpus", "C16.txt")
     if os.path.exists(corpus):
         cases += [l.strip() for l in open(corpus) if l.strip() and not l.startswith("#")]
@@ -525,6 +694,13 @@ def run(ck):
                 ck.violation("C16/residue/jump-annotations-survive-reset",
                              "%s build: witness lifecycle %s (jump annotations created, reset, created again) crashed: the stale "
                              "annotation vector points into the reset arena" % (variant, cid),
+                             {"case": c, "variant": variant, "report": errs.get(cid, "")[-2000:]})
+                continue
+            if ("X" in r or "R" not in r or "F" not in r) and cid.startswith("w-refin-"):
+                stats["refinalize_crashes"] = stats.get("refinalize_crashes", 0) + 1
+                ck.violation("C16/residue/ra-pass-data-dangling-after-finalize",
+                             "%s build: witness lifecycle %s (finalize() fails while serialising, finalize() again) crashed: nodes keep "
+                             "RABlock / RAInst pointers into the reset pass arena" % (variant, cid),
                              {"case": c, "variant": variant, "report": errs.get(cid, "")[-2000:]})
                 continue
             if "X" in r or "R" not in r or "F" not in r:
@@ -597,7 +773,7 @@ def run(ck):
         tr = res_plain.get(cid, {}).get("S")
         if tr is None:
             continue
-        ms = model_script(c, tr)
+        ms = model_script(c, tr, corr)
         if ms is None:
             ck.violation("C16/lifecycle/counter-decreased-in-program", "a generated program DEcreased a section/label/relocation/register "
                          "counter or the trace has the wrong length: %s" % tr[:300], {"case": c, "trace": tr})
@@ -618,7 +794,7 @@ def run(ck):
                     pred[tt[1]] = tt[2]
         for cid in ids:
             c = by_id[cid]
-            got = res_plain[cid]["S"].split(" ")
+            got = ["/".join(x.split("/")[:11]) for x in res_plain[cid]["S"].split(" ")]
             want = pred.get(cid, "").split(" ")
             corr["scripts"] += 1
             corr["steps"] += len(got)
@@ -647,6 +823,8 @@ def run(ck):
                              "difference in generated output for this case" % (i, steps[i][:30], g, w_),
                              {"case": c, "step": i, "impl": g, "model": w_, "broken": "correspondence of Lifecycle/LifecycleModel.v with /repo"},
                              no_input=True)
+
+    rb_info = recycled_builder_correspondence(ck, rng)
 
     for c in cases:
         t = c.split(" ")
@@ -711,6 +889,7 @@ def run(ck):
                          "FuncRetNode / CommentNode / SentinelNode (no own data members)",
                          "the Builder theorems (BuilderDirty.v) are tied to the code through C08's correspondence for fresh builders and through "
                          "this check's differential for recycled ones, not by an own command-level correspondence"],
+         "recycled_builder_correspondence": rb_info,
          "lifecycle_model_correspondence": corr, "traces_validated_against_impl": corr["scripts"]},
         assumptions=["theorems are about the extracted member/write/call-graph data and the Gallina lifecycle model, not about the C++ text",
                      "tools/c16_fields.py sees every MemberExpr write / member call / call edge of the dumped translation units (clang 14 AST)",
